@@ -24,6 +24,8 @@ type wReq struct {
 	Op   string `json:"op"` // "render" | "trace"
 	ID   int    `json:"id"`
 	HTML string `json:"html,omitempty"`
+	// Fonts names the font configuration: "" (all fonts), "ahem", "dejavu"; one per name and process
+	Fonts string `json:"fonts,omitempty"`
 }
 
 type wAns struct {
@@ -45,6 +47,9 @@ func WorkerMain(mode string) int {
 	if mode == "race" {
 		return raceWorker(repo)
 	}
+	if mode == "hyph" {
+		return hyphWorker(repo)
+	}
 	if mode == "scan" {
 		return scanWorker(repo)
 	}
@@ -58,7 +63,7 @@ func WorkerMain(mode string) int {
 	out := bufio.NewWriter(os.Stdout)
 	enc := json.NewEncoder(out)
 	kept := map[int]Trace{}
-	wfonts, _ := render.NewFonts(repo) // one configuration per process (see runner.fonts)
+	wfonts := map[string]wtext.FontConfiguration{} // one configuration per name and process (see runner.fonts)
 	for {
 		line, err := in.ReadBytes('\n')
 		if len(line) > 0 {
@@ -68,7 +73,10 @@ func WorkerMain(mode string) int {
 			}
 			switch q.Op {
 			case "render":
-				t := renderTrace(q.HTML, wfonts, repo)
+				if _, ok := wfonts[q.Fonts]; !ok {
+					wfonts[q.Fonts], _ = fontsNamed(repo, q.Fonts)
+				}
+				t := renderTrace(q.HTML, wfonts[q.Fonts], repo)
 				kept[q.ID] = t
 				h := t.hashes()
 				enc.Encode(wAns{ID: q.ID, Raw: h.raw, Canon: h.canon, Crash: h.crash})
